@@ -845,6 +845,26 @@ impl<H: DnsHandle> DnssecDnsHandle<H> {
             .enumerate()
             .filter_map(|(i, rrsig)| {
                 let rrsig = rrsig.try_borrow::<RRSIG>()?;
+
+                // RFC 4035 section 5.3.1: the signer must be the zone that contains the RRset,
+                // i.e. the owner name or an ancestor of it. Without this check an RRSIG made by
+                // any other zone decides the fate of this RRset: Secure if that zone is signed,
+                // Insecure if it is not.
+                if !rrsig
+                    .data()
+                    .input()
+                    .signer_name
+                    .zone_of(&Name::from(&key.name))
+                {
+                    warn!(
+                        rrset_name = ?key.name,
+                        rrset_type = ?key.record_type,
+                        signer_name = %rrsig.data().input().signer_name,
+                        "ignoring RRSIG whose signer name does not enclose the owner name"
+                    );
+                    return None;
+                }
+
                 let query =
                     Query::new(rrsig.data().input().signer_name.clone(), RecordType::DNSKEY);
 
@@ -1332,8 +1352,10 @@ impl RrsigValidity {
 
             // "The RRSIG RR's Signer's Name field MUST be the name of the zone that contains the
             // RRset"
-            // There is nothing to check here, but this does tell us which zone a signature comes
-            // from.
+            // The zone that contains the RRset is not known here, but its name is the owner name or
+            // an ancestor of it: a signature by any other zone, however well that zone chains to a
+            // trust anchor, says nothing about this RRset.
+            sig_input.signer_name.zone_of(&Name::from(key.name())) &&
 
             // "The RRSIG RR's Type Covered field MUST equal the RRset's type"
             sig_input.type_covered == key.record_type &&
